@@ -95,7 +95,7 @@ def plan_for(prop, tier, seed):
     MCP = "MC_Placement"
     if prop == "C01":
         p.mc = [(MCP, "MC_Placement_in_q" if q else "MC_Placement_in_t", 12, 3000, None),
-                (MCP, "MC_Placement_seq_q" if q else "MC_Placement_seq_t", 12, 3000, None)]
+                (MCP, "MC_Placement_seq_q" if q else "MC_Placement_seq_t", 12, 3000, None)] + ([] if q else [(MCP, "MC_Placement_d2_t", 12, 3000, None)])
         p.rule = ("scenario = configuration (model, window, orientation, transport, SPI buffer) + program; non-trivial: "
                   "the program contains at least 3 in-bounds drawing calls through at least 2 different entry points")
         p.nontrivial = lambda sc: len(drawing_calls(sc)) >= 3 and len({c["name"] for c in drawing_calls(sc)}) >= 2
@@ -107,7 +107,7 @@ def plan_for(prop, tier, seed):
             ("smallalpha", True, "dev", lambda ids, rng: G.f_small_alphabet(ids, rng, 500 if q else 8000, ifaces=("spi", "spi", "p8", "p16", "rec"))),
         ]
     elif prop == "C02":
-        p.mc = [(MCP, "MC_Placement_oob_q" if q else "MC_Placement_oob_t", 12, 3000, None)]
+        p.mc = [(MCP, "MC_Placement_oob_q" if q else "MC_Placement_oob_t", 12, 3000, None)] + ([] if q else [(MCP, "MC_Placement_scaled", 12, 3000, None)])
         p.rule = ("scenario = configuration + program of DrawTarget calls; non-trivial: at least one call carries an argument "
                   "outside the bounding box (negative, >= width/height, >= 65536 or an i32 extreme)")
         p.nontrivial = lambda sc: any(_has_oob(sc, c) for c in sc["calls"])
@@ -143,7 +143,7 @@ def plan_for(prop, tier, seed):
             ("contig-real", True, "dev", lambda ids, rng: G.f_oob_rects(ids, rng, G.real_model_list(rng, ["st7789", "ili9486_666"] if q else None, full=not q), n_per_cfg=5, ifaces=("rec",))),
         ]
     elif prop == "C08":
-        p.mc = [(MCP, "MC_Placement_re_q" if q else "MC_Placement_d2_t", 12, 3000, None)]
+        p.mc = [(MCP, "MC_Placement_re_q" if q else "MC_Placement_d2_t", 12, 3000, None)] + ([] if q else [(MCP, "MC_Placement_scaled", 12, 3000, None)])
         p.rule = ("scenario = configuration + drawing program (all entry points, in- and out-of-bounds); non-trivial: at least "
                   "one drawing call that emits a pixel burst")
         p.nontrivial = lambda sc: len(drawing_calls(sc)) >= 1
@@ -157,7 +157,7 @@ def plan_for(prop, tier, seed):
             ("oob-rects", True, "dev", lambda ids, rng: G.f_oob_rects(ids, rng, G.tiny_model_list(small, rng, 3 if q else 30), ifaces=("rec",))),
         ]
     elif prop == "C10":
-        p.mc = [(MCP, "MC_Placement_re_q" if q else "MC_Placement_d2_q", 12, 3000, None)]
+        p.mc = [(MCP, "MC_Placement_re_q" if q else "MC_Placement_d2_t", 12, 3000, None)]
         p.rule = ("scenario = initial configuration + sequence of set_orientation calls, each followed by corner pixels, a "
                   "clipped fill, a clipped contiguous fill and a stream; non-trivial: at least one orientation change to a "
                   "different orientation")
@@ -175,6 +175,7 @@ def plan_for(prop, tier, seed):
         p.nontrivial = lambda sc: len(drawing_calls(sc)) >= 1
         p.families = [
             ("overhead", True, "dev", lambda ids, rng: [G.measure_rowcap(ids)] + G.f_long_streams(ids, rng, 150 if q else 3000, ifaces=("rec", "spi")) ),
+            ("overhead-sequences", True, "dev", lambda ids, rng: G.f_small_alphabet(ids, rng, 400 if q else 6000, ifaces=("spi",))),
             ("overhead-fills", True, "dev", lambda ids, rng: G.f_tiny_placement(ids, rng, ifaces=("rec", "spi"), sample=0.05 if q else 0.5)
                                             + G.f_oob_rects(ids, rng, G.tiny_model_list([(4, 3), (7, 5)], rng, 3 if q else 30), ifaces=("spi",))),
         ]
@@ -238,6 +239,8 @@ def plan_for(prop, tier, seed):
         p.families = [
             ("lifecycle", True, "dev", lambda ids, rng: G.f_lifecycle(ids, rng, n_per_model=6 if q else 80, length=12 if q else 30)),
             ("lifecycle-faults", True, "dev", lambda ids, rng: G.f_lifecycle(ids, rng, n_per_model=5 if q else 60, length=10 if q else 24, fault_rate=0.5)),
+            ("lifecycle-faults-anywhere", True, "dev", lambda ids, rng: G.f_lifecycle(ids, rng, n_per_model=8 if q else 80, length=10 if q else 24, fault_rate=0.1, any_fault_rate=0.4,
+                                                                                       ifaces=("p8", "p8", "spi", "rec_p8"))),
             ("model-init", True, "dev", lambda ids, rng: G.f_model_init(ids, rng, full=False, after=False)),
         ]
     elif prop == "C16":
@@ -276,11 +279,12 @@ def plan_for(prop, tier, seed):
                   "a strided (quick) / complete (thorough) sweep of all 2^32 angles against the validated residue table")
         p.exhaustive = not q
         p.tables = [("orient", True, "dev", lambda rng: G.t_orient(rng, maxlen=3 if q else 4, stride=(1 << 8) if q else 1))]
-        p.families = [("reorient-drawn", True, "dev", lambda ids, rng: G.f_reorient(ids, rng, G.tiny_model_list([(3, 2), (2, 3)], rng, 4), ifaces=("rec",), sample=0.5 if q else 1.0))]
+        p.families = [("reorient-drawn", True, "dev", lambda ids, rng: G.f_reorient(ids, rng, G.tiny_model_list([(3, 2), (2, 3)], rng, 4), ifaces=("rec",), sample=0.5 if q else 1.0, tag="orient-drawn"))]
     elif prop == "C18":
         p.rule = ("table rows = every command type with boundary-value, seeded random and (thorough) all-65536-per-position "
                   "arguments, serialised on buffers pre-filled with A5h and 5Ah, and sent through write_command / write_raw")
         p.tables = [("dcs", True, "dev", lambda rng: G.t_dcs(rng, nrandom=2000 if q else 60000, all_u16=not q))]
+        p.families = [("dcs-over-transports", True, "dev", lambda ids, rng: G.f_dcs_over_transports(ids, rng, n=250 if q else 4000))]
     elif prop == "C19":
         p.rule = ("table rows = TestImage drawn on a clipping framebuffer for every size 0x0..NxN (N = 40 quick / 96 thorough) "
                   "and three colour types; predicates evaluated for sizes >= 32x32; scenarios = the image drawn through real "
